@@ -109,7 +109,13 @@ def epName : EP → String
 def run (c : Json) : E Json := do
   let lr ← parseReq (← fld c "req")
   let pack := strD (← fld c "req") "envoy_body" "raw" != "str"
-  let I : Impl := if strD c "impl" "fixed" == "original" then Impl.original else Impl.fixed
+  let I : Impl := match strD c "impl" "fixed" with
+    | "original" => Impl.original
+    | "next" => Impl.next
+    | _ => Impl.fixed
+  -- the two definitions of the received spelling (this model's and the one of `Base/UrlEscape.lean`) agree
+  if receivedL lr.rawPath ≠ Heimdall.receivedPathL lr.rawPath then
+    throw "receivedL and Heimdall.receivedPathL disagree on the path of this case"
   let spy := fldD c "spy" (Json.mkObj [])
   let spyH := ((strs spy "headers").toOption.getD []).map String.toList
   let spyC := ((strs spy "cookies").toOption.getD []).map String.toList
@@ -153,6 +159,7 @@ def run (c : Json) : E Json := do
   let F := Spec.funcs cfg.D lr
   let specJson := Json.mkObj [
     ("wellformed", Json.bool (Spec.wellFormed lr)),
+    ("covered", Json.bool (Spec.covered I lr)),
     ("single_valued", Json.bool (Spec.singleValued sp)),
     ("decision", outcomeJson spyH spyC F (Spec.headersMap lr) (Spec.answer cfg.respond lr .decision sp)),
     ("envoy", outcomeJson spyH spyC F (Spec.headersMap lr) (Spec.answer cfg.respond lr .envoy sp)),
